@@ -361,6 +361,8 @@ def getitem(ctx, obj, idx):
                 if isinstance(lo, SV) or isinstance(hi, SV):
                     raise Undecided("symbolic slice of list")
                 return ctx.alloc("list", init={"v": ctx.st(obj)["v"][lo:hi]})
+        if isinstance(obj, Ref) and obj.kind == "wseq" and idx.step is None:
+            return wseq_slice(ctx, obj, idx)
         if ty_of(obj) in TEXT:
             return text_slice(ctx, obj, idx)
         raise Undecided("slice of %r" % (obj,))
@@ -623,6 +625,61 @@ def wseq_store(ctx, s, i, v):
     s["arrs"] = [z3.Store(a, i, term(x, ty, a)) for a, x, ty in zip(s["arrs"], vals, s["shape"])]
     if s.get("on_store"):
         s["on_store"](ctx, i, vals)
+
+
+def wseq_slice(ctx, r, sl):
+    """seq[a:b] of a window sequence (a, b symbolic ints or None) as a NEW window over the same (immutable) SMT arrays;
+    python clamping: negative bounds count from the end, everything is clamped to [0, len]"""
+    s = ctx.st(r)
+    n = s["hi"] - s["lo"]
+
+    def bound(v, default):
+        if v is None:
+            return default
+        t = z(v, "int")
+        t = z3.If(t < 0, t + n, t)
+        return z3.If(t < 0, 0, z3.If(t > n, n, t))
+    a, b = bound(sl.start, z3.IntVal(0)), bound(sl.stop, n)
+    b = z3.If(b < a, a, b)
+    return ctx.alloc("wseq", init={"arrs": list(s["arrs"]), "lo": z3.simplify(s["lo"] + a), "hi": z3.simplify(s["lo"] + b),
+                                   "shape": s["shape"], "kind2": "list"})
+
+
+def wseq_reversed(ctx, r):
+    """reversed(seq) / list(reversed(seq)): fresh arrays R over the same window with R[lo + k] == A[hi - 1 - k]"""
+    s = ctx.st(r)
+    ctx.nfresh += 1
+    k = z3.Int("k!rev%d" % ctx.nfresh)
+    arrs = []
+    for j, a in enumerate(s["arrs"]):
+        ra = z3.Const("rev.a%d!%d" % (j, ctx.nfresh), a.sort())
+        ctx.vars[str(ra)] = ra
+        ctx.assume(z3.ForAll([k], z3.Implies(z3.And(0 <= k, k < s["hi"] - s["lo"]),
+                                              z3.Select(ra, s["lo"] + k) == z3.Select(a, s["hi"] - 1 - k))))
+        arrs.append(ra)
+    return ctx.alloc("wseq", init={"arrs": arrs, "lo": s["lo"], "hi": s["hi"], "shape": s["shape"], "kind2": "list"})
+
+
+class SymRange:
+    """range(n) with a symbolic n: the loop over it is cut by an invariant that may mention the hidden position _idx
+    (the number of completed iterations; the loop variable of the arbitrary iteration is _idx before the increment)"""
+
+    def __init__(self, n):
+        self.n = n
+
+    def for_loop(self, interp, st, fr, it, spec):
+        n = self.n
+        fr.locals["_idx"] = 0
+
+        def test():
+            return z(fr.locals["_idx"], "int") < n
+
+        def pre():
+            i = z(fr.locals["_idx"], "int")
+            interp.assign(st.target, mk(i, "int"), fr)
+            fr.locals["_idx"] = mk(i + 1, "int")
+        spec.types.setdefault("_idx", "int")
+        return interp.cut_loop(st, fr, spec, test=test, body=st.body, pre=pre, extra_havoc=("_idx",))
 
 
 def wseq_get(ctx, r, idx):
@@ -1184,7 +1241,9 @@ def call_foreign(interp, f, args, kwargs, fr, site):
         cs = [conc(a) for a in args]
         if all(isinstance(c, int) for c in cs):
             return range(*cs)
-        raise Undecided("symbolic range")
+        if len(args) == 1 and ty_of(args[0]) == "int":
+            return ctx.alloc("ext", init={"model": SymRange(z(args[0], "int"))})
+        raise Undecided("symbolic range with start/step")
     if o is pyb.enumerate:
         items = concrete_iter(ctx, args[0], must=True)
         start = args[1] if len(args) > 1 else kwargs.get("start", 0)
@@ -1192,6 +1251,8 @@ def call_foreign(interp, f, args, kwargs, fr, site):
     if o is pyb.zip:
         cols = [concrete_iter(ctx, a, must=True) for a in args]
         return ctx.alloc("iter", init={"v": [tuple(t) for t in zip(*cols)]})
+    if o is pyb.reversed and isinstance(args[0], Ref) and args[0].kind == "wseq":
+        return wseq_reversed(ctx, args[0])
     if o is pyb.reversed:
         return ctx.alloc("iter", init={"v": list(reversed(concrete_iter(ctx, args[0], must=True)))})
     if o is pyb.sorted and not kwargs:
